@@ -79,16 +79,21 @@ TR == INSTANCE TemplateResolve WITH Cap <- 20, MustOk <- 18, Horizon <- 22, Inte
 
 -----------------------------------------------------------------------------
 (* The source tree (fixed) *)
-Pkgs    == {"a", "ab", "k"}
-PkgDir(p) == CASE p = "a" -> <<"w", "a">> [] p = "ab" -> <<"w", "a", "b">> [] p = "k" -> <<"w", "k">>
+Pkgs    == {"a", "ab", "abc", "k"}
+PkgDir(p) == CASE p = "a" -> <<"w", "a">> [] p = "ab" -> <<"w", "a", "b">> [] p = "abc" -> <<"w", "a", "b", "c">> [] p = "k" -> <<"w", "k">>
+PkgNameOf(p) == IF p = "abc" THEN "cpk" ELSE LY!PkgName(PkgDir(p))     \* Layout.tla's tree ends at a/b
 P(p)    == LY!PkgPath(PkgDir(p))                         \* import path
 PS(p)   == <<"example.com">> \o PkgDir(p)                \* its segments
-IfSeq   == [a |-> <<"A1", "A2">>, ab |-> <<"B1">>, k |-> <<"K1", "K2">>]     \* declaration order
-DeclT   == [a |-> {"A1", "A2"}, ab |-> {"B1"}, k |-> {"K1", "K2"}]
-SubsT   == [a |-> {"ab"}, k |-> {}]
-SubList == [a |-> <<"a", "ab">>, ab |-> <<"ab">>, k |-> <<"k">>]             \* `go list p/...` (p itself included)
+IfSeq   == [a |-> <<"A1", "A2">>, ab |-> <<"B1">>, abc |-> <<"C1">>, k |-> <<"K1", "K2">>]     \* declaration order
+DeclT   == [a |-> {"A1", "A2"}, ab |-> {"B1"}, abc |-> {"C1"}, k |-> {"K1", "K2"}]
+SubsT   == [a |-> {"ab", "abc"}, ab |-> {"abc"}, k |-> {}]
+\* (whether K2 sits behind a build tag is a property of the WORLD here -- see Visible -- not of the shape)
+TaggedT == [a |-> << >>, ab |-> << >>, abc |-> << >>, k |-> << >>]
+SubList == [a |-> <<"a", "ab", "abc">>, ab |-> <<"ab", "abc">>, abc |-> <<"abc">>, k |-> <<"k">>]   \* `go list p/...` (p itself included)
+\* proper ancestors in the directory tree, nearest first
+AncSeq(s) == CASE s = "ab" -> <<"a">> [] s = "abc" -> <<"ab", "a">> [] OTHER -> << >>
 \* config.go:380-385: longer import path first, ties by path
-RecOrder == <<"ab", "a", "k">>
+RecOrder == <<"abc", "ab", "a", "k">>
 
 (* Configuration tree shapes (ConfigTreeContract.NodeRecs must be a constant: one instance per shape) *)
 N(id, parent, kd, pkg, letter) == [id |-> id, parent |-> parent, kind |-> kd, pkg |-> pkg, letter |-> letter]
@@ -97,22 +102,26 @@ PkN  == {N("a", "flag", "pkg", "a", ""), N("k", "flag", "pkg", "k", "")}
 NS2  == Top \cup PkN \cup {N("k.K1", "k", "iface", "k", "K1")}
 NS1  == NS2 \cup {N("a.A1", "a", "iface", "a", "A1"), N("a.A1.1", "a.A1", "entry", "a", "A1"), N("a.A1.2", "a.A1", "entry", "a", "A1")}
 NS3  == NS1 \cup {N("k.Nope", "k", "iface", "k", "Nope")}
-CT1 == INSTANCE ConfigTreeContract WITH NodeRecs <- NS1, Decl <- DeclT, Subs <- SubsT
-CT2 == INSTANCE ConfigTreeContract WITH NodeRecs <- NS2, Decl <- DeclT, Subs <- SubsT
-CT3 == INSTANCE ConfigTreeContract WITH NodeRecs <- NS3, Decl <- DeclT, Subs <- SubsT
-CMocks(x)      == CASE x.shape = "S1" -> CT1!Mocks(x.cfg) [] x.shape = "S2" -> CT2!Mocks(x.cfg) [] x.shape = "S3" -> CT3!Mocks(x.cfg)
+NS4  == NS2 \cup {N("ab", "flag", "pkg", "ab", "")}              \* a/b configured explicitly, below the (possibly recursive) a
+CT1 == INSTANCE ConfigTreeContract WITH NodeRecs <- NS1, Decl <- DeclT, Tagged <- TaggedT, Subs <- SubsT
+CT2 == INSTANCE ConfigTreeContract WITH NodeRecs <- NS2, Decl <- DeclT, Tagged <- TaggedT, Subs <- SubsT
+CT3 == INSTANCE ConfigTreeContract WITH NodeRecs <- NS3, Decl <- DeclT, Tagged <- TaggedT, Subs <- SubsT
+CT4 == INSTANCE ConfigTreeContract WITH NodeRecs <- NS4, Decl <- DeclT, Tagged <- TaggedT, Subs <- SubsT
+CTMocks(x)     == CASE x.shape = "S1" -> CT1!Mocks(x.cfg) [] x.shape = "S2" -> CT2!Mocks(x.cfg) [] x.shape = "S3" -> CT3!Mocks(x.cfg)
+                    [] x.shape = "S4" -> CT4!Mocks(x.cfg)
 CEff(x, p, n)  == CASE x.shape = "S1" -> CT1!EffScalar(x.cfg, p, n) [] x.shape = "S2" -> CT2!EffScalar(x.cfg, p, n)
-                    [] x.shape = "S3" -> CT3!EffScalar(x.cfg, p, n)
+                    [] x.shape = "S3" -> CT3!EffScalar(x.cfg, p, n) [] x.shape = "S4" -> CT4!EffScalar(x.cfg, p, n)
 CHits(x, p, n) == CASE x.shape = "S1" -> CT1!Hits(x.cfg, p, n) [] x.shape = "S2" -> CT2!Hits(x.cfg, p, n)
-                    [] x.shape = "S3" -> CT3!Hits(x.cfg, p, n)
-CListed(x, p)  == IF p \notin {"a", "k"} THEN {}
+                    [] x.shape = "S3" -> CT3!Hits(x.cfg, p, n) [] x.shape = "S4" -> CT4!Hits(x.cfg, p, n)
+\* the packages written in `packages:` (none when the config file is empty or has no `packages` section)
+ConfiguredSet(x) == IF x.cfgkind # "normal" THEN {} ELSE IF x.shape = "S4" THEN {"a", "ab", "k"} ELSE {"a", "k"}
+CListed(x, p)  == IF p \notin ConfiguredSet(x) THEN {}
                   ELSE CASE x.shape = "S1" -> CT1!ListedLetters(p) [] x.shape = "S2" -> CT2!ListedLetters(p)
-                         [] x.shape = "S3" -> CT3!ListedLetters(p)
+                         [] x.shape = "S3" -> CT3!ListedLetters(p) [] x.shape = "S4" -> CT4!ListedLetters(p)
 CSelected(x, p, L) == CASE x.shape = "S1" -> CT1!Selected(x.cfg, p, L, L \in CListed(x, p))
                         [] x.shape = "S2" -> CT2!Selected(x.cfg, p, L, L \in CListed(x, p))
                         [] x.shape = "S3" -> CT3!Selected(x.cfg, p, L, L \in CListed(x, p))
-CDiscovered(x, p, s) == CASE x.shape = "S1" -> CT1!Discovered(x.cfg, p, s) [] x.shape = "S2" -> CT2!Discovered(x.cfg, p, s)
-                          [] x.shape = "S3" -> CT3!Discovered(x.cfg, p, s)
+                        [] x.shape = "S4" -> CT4!Selected(x.cfg, p, L, L \in CListed(x, p))
 IfNode(p, L)  == p \o "." \o L
 EntSeq(x, n)  == IF n = "a.A1" /\ x.shape \in {"S1", "S3"} THEN <<"a.A1.1", "a.A1.2">> ELSE << >>
 NodesOfPkg(x, p) == {IfNode(p, L) : L \in CListed(x, p)} \cup UNION {SeqSet(EntSeq(x, IfNode(p, L))) : L \in CListed(x, p)}
@@ -123,34 +132,53 @@ NodesOfPkg(x, p) == {IfNode(p, L) : L \in CListed(x, p)} \cup UNION {SeqSet(EntS
 Lit(s) == TR!Lit(s)
 Var(v) == TR!Var(v)
 Params == {"all", "recursive", "include-interface-regex", "exclude-interface-regex", "exclude-subpkg-regex", "dir", "filename",
-           "structname", "pkgname", "template", "template-schema", "force-file-write", "log-level", "build-tags"}
+           "structname", "pkgname", "template", "template-schema", "force-file-write", "log-level", "build-tags",
+           "template-data", "formatter", "require-template-schema-exists"}
 Defaults ==   ("all" :> FALSE) @@ ("recursive" :> FALSE) @@ ("include-interface-regex" :> {}) @@ ("exclude-interface-regex" :> {})
            @@ ("exclude-subpkg-regex" :> << >>) @@ ("dir" :> "def") @@ ("filename" :> <<Lit("mocks_test.go")>>)
            @@ ("structname" :> <<Var("Mock"), Var("InterfaceName")>>) @@ ("pkgname" :> <<Var("SrcPackageName")>>)
            @@ ("template" :> "testify") @@ ("template-schema" :> <<Var("Template"), Lit(".schema.json")>>)
            @@ ("force-file-write" :> FALSE) @@ ("log-level" :> "info") @@ ("build-tags" :> "")
+           @@ ("template-data" :> << >>) @@ ("formatter" :> "goimports") @@ ("require-template-schema-exists" :> TRUE)
 DirTok(form)  == CASE form = "def" -> <<Var("InterfaceDir")>>
                    [] form = "mocks" -> <<Var("InterfaceDir"), Lit("/mocks")>>
                    [] form = "up" -> <<Var("InterfaceDir"), Lit("/../gen")>>
 DirSegs(form, d) == <<LY!RootStr>> \o d \o (CASE form = "def" -> << >> [] form = "mocks" -> <<"mocks">> [] form = "up" -> <<"..", "gen">>)
 \* custom templates live in %R%/tmpl (probes/root); the stage at which each fails
 TemplStr(t)   == IF t \in Builtin THEN t ELSE "file://" \o LY!RootStr \o "/tmpl/" \o t \o ".templ"
-TemplFault(t) == CASE t = "noschema" -> "template" [] t = "needkey" -> "schema" [] t = "badexec" -> "exec" [] t = "badfmt" -> "format"
-                   [] OTHER -> "-"
-LogLevels == {"info", "debug", "error", "warn"}
+LogLevels  == {"info", "debug", "error", "warn"}
+Formatters == {"goimports", "gofmt", "noop"}
+\* template-data is a map key -> kind of value.  The schema of template `needkey` requires a string under "need" (other
+\* keys are free), the built-in schemas forbid every key used here (additionalProperties: false), `ok` & co. are open.
+\* (Schema.tla checks validation per level, schema availability and the remote-template cache in depth.)
+DataValid(t, d) == CASE t = "needkey" -> "need" \in DOMAIN d /\ d["need"] = "str"
+                     [] t \in Builtin -> DOMAIN d = {}
+                     [] OTHER -> TRUE
+\* the stage of the per-file pipeline at which a file fails ("-" none), as a function of its per-file parameters
+\* (template t, require-template-schema-exists req, formatter fmt), the file-level data pd (the source package's
+\* effective map) and the data ds of its mocks: Schema!FileVerdict o the stage order of template_generator.go:463-505
+FileFault(t, req, fmt, pd, ds) ==
+  IF t = "noschema" /\ req THEN "template"
+  ELSE IF (t \in Builtin \/ req) /\ ~(DataValid(t, pd) /\ \A d \in ds : DataValid(t, d)) THEN "schema"
+  ELSE IF t = "badexec" THEN "exec"
+  ELSE IF t = "badfmt" \/ fmt \notin Formatters THEN "format"
+  ELSE "-"
 
 Over(f, g) == [p \in DOMAIN f \cup DOMAIN g |-> IF p \in DOMAIN g THEN g[p] ELSE f[p]]
 \* mergeConfigs(src, dst), config.go:292-347: only what dst leaves unset is taken from src (ConfigTree.tla checks the
 \* reflective merge per field kind)
-Merge(src, dst) == Over(src, dst)
+\* (template-data, a map[string]any, is merged key by key: config.go:245-267)
+Merge(src, dst) == [p \in DOMAIN src \cup DOMAIN dst |->
+                      IF p = "template-data" /\ p \in DOMAIN src /\ p \in DOMAIN dst THEN Over(src[p], dst[p])
+                      ELSE IF p \in DOMAIN dst THEN dst[p] ELSE src[p]]
 
 Bind(p, L, t, cd) ==
   [InterfaceDir |-> LY!Abs(PkgDir(p)), InterfaceDirRelative |-> (IF LY!IsPrefix(cd, PkgDir(p)) THEN LY!RelStr(cd, PkgDir(p)) ELSE "."),
-   InterfaceFile |-> LY!DocIfaceFile(PkgDir(p)), InterfaceName |-> L, Mock |-> "Mock",
-   SrcPackageName |-> LY!PkgName(PkgDir(p)), SrcPackagePath |-> P(p), Template |-> TemplStr(t), ConfigDir |-> LY!Abs(cd)]
+   InterfaceFile |-> LY!Abs(PkgDir(p)) \o "/svc.go", InterfaceName |-> L, Mock |-> "Mock",
+   SrcPackageName |-> PkgNameOf(p), SrcPackagePath |-> P(p), Template |-> TemplStr(t), ConfigDir |-> LY!Abs(cd)]
 BindFile(p, t, cd) ==
   [InterfaceDir |-> "", InterfaceDirRelative |-> "", InterfaceFile |-> "", InterfaceName |-> "", Mock |-> "",
-   SrcPackageName |-> LY!PkgName(PkgDir(p)), SrcPackagePath |-> P(p), Template |-> TemplStr(t), ConfigDir |-> LY!Abs(cd)]
+   SrcPackageName |-> PkgNameOf(p), SrcPackagePath |-> P(p), Template |-> TemplStr(t), ConfigDir |-> LY!Abs(cd)]
 ValsOf(c) == [dir |-> DirTok(c["dir"]), filename |-> c["filename"], pkgname |-> c["pkgname"], structname |-> c["structname"],
               schema |-> c["template-schema"]]
 NormVals(v) == [q \in TR!Params |-> TR!Norm(v[q])]
@@ -166,36 +194,56 @@ With1(v, Op(_)) == CHOOSE r \in {Op(y) : y \in {v}} : TRUE
 \* CNodeCfgCT is the definition by ConfigTreeContract!EffScalar; CNodeCfg is the same function restated over the chain
 \* (ConfigTreeContract!Chain) taken ONCE per node, because TLC re-tabulates an INSTANCE's ChainTbl on every reference
 \* (a factor of ~1000 here).  EffAgreesWithCT (checked by the *_cases cfgs on every world) is their equality.
-CNodeCfgCT(x, n) == [p \in Params |-> IF CHits(x, p, n) = {} THEN Defaults[p] ELSE CEff(x, p, n)]
+CNodeCfgCT(x, n) == [p \in Params \ {"template-data"} |-> IF CHits(x, p, n) = {} THEN Defaults[p] ELSE CEff(x, p, n)]
 ChainOf(x, n) == CASE x.shape = "S1" -> CT1!Chain(n) [] x.shape = "S2" -> CT2!Chain(n) [] x.shape = "S3" -> CT3!Chain(n)
+                   [] x.shape = "S4" -> CT4!Chain(n)
 RECURSIVE FirstSet(_, _, _)
 FirstSet(cfg, ch, p) == IF ch = << >> THEN Defaults[p]
                         ELSE IF Head(ch) \in DOMAIN cfg /\ p \in DOMAIN cfg[Head(ch)] THEN cfg[Head(ch)][p]
                         ELSE FirstSet(cfg, Tail(ch), p)
-CNodeCfg(x, n) == With1(ChainOf(x, n), LAMBDA ch : [p \in Params |-> FirstSet(x.cfg, ch, p)] @@ << >>)
+\* map-valued parameter: merged key by key, the more specific level wins (ConfigTreeContract!EffMap over plain maps)
+RECURSIVE EffData(_, _)
+EffData(cfg, ch) == IF ch = << >> THEN << >>
+                    ELSE Over(EffData(cfg, Tail(ch)),
+                              IF Head(ch) \in DOMAIN cfg /\ "template-data" \in DOMAIN cfg[Head(ch)] THEN cfg[Head(ch)]["template-data"] ELSE << >>)
+CNodeCfg(x, n) == With1(ChainOf(x, n), LAMBDA ch :
+                    [p \in Params |-> IF p = "template-data" THEN EffData(x.cfg, ch) ELSE FirstSet(x.cfg, ch, p)] @@ << >>)
+\* NEAREST RECURSIVE ANCESTOR (Recursive.tla checks this contract over package trees in depth; restated for the four
+\* packages here): a package that is not written in `packages:` is in the table iff its nearest configured recursive
+\* ancestor does not exclude it, and then carries that ancestor's settings.  If the nearest one excludes it while a
+\* farther one is recursive, too, the statement leaves the outcome open (OpenSrc: such worlds are not generated).
+RecAncSeq(x, s) == SelectSeq(AncSeq(s), LAMBDA a : a \in ConfiguredSet(x) /\ CNodeCfg(x, a)["recursive"])
+ExclBy(x, a, s) == \E j \in 1..Len(CNodeCfg(x, a)["exclude-subpkg-regex"]) : CNodeCfg(x, a)["exclude-subpkg-regex"][j] = s
+SrcOf(x, s) == IF s \in ConfiguredSet(x) THEN s
+               ELSE IF RecAncSeq(x, s) = << >> \/ ExclBy(x, RecAncSeq(x, s)[1], s) THEN "" ELSE RecAncSeq(x, s)[1]
+OpenSrc(x, s) == s \notin ConfiguredSet(x) /\ Len(RecAncSeq(x, s)) >= 2 /\ ExclBy(x, RecAncSeq(x, s)[1], s)
+\* the package table a run uses and `showconfig` shows: package -> node whose effective configuration it carries
+CTable(x) == [p \in {q \in Pkgs : SrcOf(x, q) # ""} |-> SrcOf(x, p)]
+\* ConfigTreeContract!Mocks offers a sub-package's mocks from EVERY configured recursive ancestor; the nearest one counts
+CMocksT(x, T) == IF x.cfgkind # "normal" THEN {}
+                 ELSE {m \in CTMocks(x) : m.how # "subpkg" \/ (m.pkg \in DOMAIN T /\ T[m.pkg] = m.from)}
 \* one mock of the contract (selection o configuration, ConfigTreeContract!Mocks) with its resolved values
 \* (TemplateResolve fixpoint under the documented bindings) and its output path (Layout directories, clean join)
-MockInfoOf(x, m, c, fix) ==
+MockInfoOf(x, m, c, fix, T) ==
   LET segs == Clean(TRUE, DirSegs(c["dir"], PkgDir(m.pkg)) \o <<TR!Text(fix.vals["filename"])>>)
   IN [pkg |-> P(m.pkg), pid |-> m.pkg, iface |-> m.letter, node |-> m.from, ok |-> fix.n # -1,
       file |-> FileKey(segs), fsegs |-> segs, struct |-> TR!Text(fix.vals["structname"]),
       pkgname |-> TR!Text(fix.vals["pkgname"]), schema |-> TR!Text(fix.vals["schema"]),
-      tid |-> c["template"], tmpl |-> TemplStr(c["template"]), force |-> c["force-file-write"]]
-MockInfo(x, m) ==
+      tid |-> c["template"], tmpl |-> TemplStr(c["template"]), force |-> c["force-file-write"],
+      fmt |-> c["formatter"], req |-> c["require-template-schema-exists"], data |-> c["template-data"],
+      pdata |-> CNodeCfg(x, T[m.pkg])["template-data"]]                 \* file-level data: the source package's map
+MockInfo(x, m, T) ==
   With1(CNodeCfg(x, m.from), LAMBDA c :
     With1(TR!Iterate(NormVals(ValsOf(c)), Bind(m.pkg, m.letter, c["template"], CfgDir(x)), ValsOf(c)["structname"], 22),
-          LAMBDA fix : MockInfoOf(x, m, c, fix)))
+          LAMBDA fix : MockInfoOf(x, m, c, fix, T)))
 \* build-tags (MOCKERY_BUILD_TAGS): in a `tagged` world K2 of package k is declared in a file constrained by
 \* `//go:build extra`; it exists for mockery only when the TOP-LEVEL build-tags value names that tag (mockery.go:187)
 Visible(x, p, L) == ~(x.tagged /\ p = "k" /\ L = "K2") \/ FirstSet(x.cfg, <<"flag", "root", "env">>, "build-tags") = "extra"
-MissingC(x)   == UNION {{<<P(p), L>> : L \in {n \in CListed(x, p) : n \notin DeclT[p]}} : p \in {"a", "k"}}
+MissingC(x)   == UNION {{<<P(p), L>> : L \in {n \in CListed(x, p) : n \notin DeclT[p]}} : p \in ConfiguredSet(x)}
 LevelOK(x)    == CNodeCfg(x, "flag")["log-level"] \in LogLevels
-\* the package table a run uses and `showconfig` shows: package -> node whose effective configuration it carries
-CTable(x) == [p \in {"a", "k"} \cup {s \in {"ab"} : CDiscovered(x, "a", s)} |-> IF p = "ab" THEN "a" ELSE p]
 MockRecOf(i) == [pkg |-> i.pkg, iface |-> i.iface, file |-> i.file, struct |-> i.struct, pkgname |-> i.pkgname, tmpl |-> i.tmpl]
 SelKeyOf(p, L) == P(p) \o "|" \o L
-ExpSel(x) == UNION {{SelKeyOf(p, L) : L \in {n \in DeclT[p] : CSelected(x, p, n) /\ Visible(x, p, n)}} : p \in {"a", "k"}}
-             \cup {SelKeyOf("ab", L) : L \in {n \in DeclT["ab"] : "ab" \in DOMAIN CTable(x) /\ CSelected(x, "a", n)}}
+ExpSelT(x, T) == UNION {{SelKeyOf(p, L) : L \in {n \in DeclT[p] : CSelected(x, T[p], n) /\ Visible(x, p, n)}} : p \in DOMAIN T}
 
 \* Everything the contract says about world x, computed ONCE (TLC does not cache operator applications):
 \*   infos      the mocks                         files     their output paths
@@ -204,14 +252,16 @@ ExpSel(x) == UNION {{SelKeyOf(p, L) : L \in {n \in DeclT[p] : CSelected(x, p, n)
 \*   allowed    "old" / "new" per file (Pipeline!AllowedFinal), new = the complete new content
 \*   wellformed mocks sharing a file agree on force-file-write and have distinct struct names (else the statement
 \*              leaves the outcome open: such worlds are not generated)
-ContractOf(x, I) ==
+ContractOf(x, I, T) ==
   LET F      == {i.file : i \in I}
       Of(f)  == {i \in I : i.file = f}
       Uni(f) == \A i, j \in Of(f) : i.pkg = j.pkg /\ i.pkgname = j.pkgname /\ i.tmpl = j.tmpl
       Frc(f) == \A i \in Of(f) : i.force
-      Flt(f) == (\E i \in Of(f) : TemplFault(i.tid) # "-") \/ x.fp.key = f
+      One(f) == CHOOSE i \in Of(f) : TRUE
+      Flt(f) == FileFault(One(f).tid, One(f).req, One(f).fmt, One(f).pdata, {i.data : i \in Of(f)}) # "-" \/ x.fp.key = f
       MK(f)  == ~Uni(f) \/ Flt(f) \/ (f \in x.occ /\ ~Frc(f))
       Inp    == \/ x.pkgfault # "-"
+                \/ x.cfgkind # "normal"                       \* no packages to work on (mockery.go:193-196)
                 \/ \E i \in I : ~i.ok
                 \/ ~LevelOK(x)
                 \/ "real" \notin LY!RolesAllowed(x.lay)
@@ -220,7 +270,6 @@ ContractOf(x, I) ==
                 ELSE IF x.argv \in {"badflag", "badcmd"} THEN "nonzero"
                 ELSE IF x.argv = "showconfig" /\ (x.pkgfault \in {"nocfg", "unknown-key"} \/ "real" \notin LY!RolesAllowed(x.lay)) THEN "nonzero"
                 ELSE "zero"
-      T      == CTable(x)
   IN [infos |-> I, files |-> F,
       uniform  |-> [f \in F |-> Uni(f)],
       mustkeep |-> [f \in F |-> MK(f)],
@@ -229,20 +278,25 @@ ContractOf(x, I) ==
                                  structs |-> {<<i.iface, i.struct>> : i \in Of(f)}]],
       fsegs    |-> [f \in F |-> (CHOOSE i \in Of(f) : TRUE).fsegs],
       anyfailure |-> AnyF, exit |-> Ex, missing |-> MissingC(x),
-      wellformed |-> \A f \in F : \A i, j \in Of(f) : i.force = j.force /\ ((i # j /\ Uni(f)) => i.struct # j.struct),
-      table |-> [p \in DOMAIN T |-> [path |-> P(p), cfg |-> CNodeCfg(x, T[p])]],
-      nodes |-> [n \in UNION {NodesOfPkg(x, p) : p \in {"a", "k"}} |-> CNodeCfg(x, n)],
+      wellformed |-> /\ \A f \in F : \A i, j \in Of(f) : /\ i.force = j.force /\ i.fmt = j.fmt /\ i.req = j.req
+                                                            /\ (i # j /\ Uni(f)) => i.struct # j.struct
+                     \* "no validation without require" vs "data is validated": both are accepted by Schema.tla ("either")
+                     /\ \A i \in I : ~(i.tid = "needkey" /\ ~i.req)
+                     /\ \A s \in Pkgs : ~OpenSrc(x, s),
+      table |-> [p \in DOMAIN T |-> [path |-> P(p), src |-> T[p], cfg |-> CNodeCfg(x, T[p])]],
+      nodes |-> [n \in UNION {NodesOfPkg(x, p) : p \in ConfiguredSet(x)} |-> CNodeCfg(x, n)],
       top   |-> CNodeCfg(x, "flag"),
       \* the expectation handed to the skeleton (contract-* clauses)
-      exp   |-> [sel   |-> ExpSel(x),
+      exp   |-> [sel   |-> ExpSelT(x, T),
                  known |-> UNION {{SelKeyOf(p, L) : L \in DeclT[p]} : p \in Pkgs},
                  mocks |-> {MockRecOf(i) : i \in I},
                  force |-> {[file |-> f, force |-> Frc(f)] : f \in F},
                  src   |-> {[sub |-> P(s), parent |-> P(T[s])] : s \in {q \in DOMAIN T : T[q] # q}},
                  exit  |-> Ex]]
-Contract(x) == With1({MockInfo(x, m) : m \in {mm \in CMocks(x) : Visible(x, mm.pkg, mm.letter)}}, LAMBDA I : ContractOf(x, I))
+Contract(x) == With1(CTable(x), LAMBDA T :
+                 With1({MockInfo(x, m, T) : m \in {mm \in CMocksT(x, T) : Visible(x, mm.pkg, mm.letter)}}, LAMBDA I : ContractOf(x, I, T)))
 WellFormed(x) == Contract(x).wellformed
-CFiles(x) == {MockInfo(x, m).file : m \in {mm \in CMocks(x) : Visible(x, mm.pkg, mm.letter)}}
+CFiles(x) == Contract(x).files
 
 -----------------------------------------------------------------------------
 (* CODE-SHAPED CLOSED MODEL *)
@@ -302,18 +356,18 @@ LoadSources ==
   /\ IF w.pkgfault \in {"nocfg", "unknown-key"}
      THEN Fail /\ UNCHANGED mcfg
      ELSE /\ LET role == LY!ImplRoleUsed(w.lay)
-                 file == IF role = "real" THEN Own("root") ELSE Over(Own("root"), DecoyRoot)
-             IN mcfg' = ("root" :> Over(Over(Over(Defaults, Own("env")), file), Own("flag")))
+                 file == IF w.cfgkind = "empty" THEN << >> ELSE IF role = "real" THEN Own("root") ELSE Over(Own("root"), DecoyRoot)
+             IN mcfg' = ("root" :> Merge(Merge(Merge(Defaults, Own("env")), file), Own("flag")))
           /\ pc' = "ibegin" /\ UNCHANGED xc
   /\ SkKeep /\ UNCHANGED <<w, cc, pend, cx, rs, cnode, fs, mk, out, snap, anyfail>>
 
 \* RootConfig.Initialize, config.go:349-421 (Recursive.tla checks discovery / inheritance over package trees)
 InitBegin ==
   /\ pc = "ibegin"
-  /\ LET S == IF ini.passes = 0 THEN {"a", "k"} ELSE {ById(q) : q \in tbl} IN
+  /\ LET S == IF ini.passes = 0 THEN ConfiguredSet(w) ELSE {ById(q) : q \in tbl} IN
        /\ Sk([ev |-> "InitBegin", n |-> Cardinality(S)])
        /\ pend' = S
-  /\ pc' = "loop1"
+       /\ pc' = IF S = {} THEN "sort" ELSE "loop1"
   /\ UNCHANGED <<w, cc, mcfg, cx, rs, cnode, fs, mk, out, xc, snap, anyfail>>
 
 \* one iteration of `for pkgName, pkgConfig := range c.Packages`: merge root -> package -> interface -> entry
@@ -390,7 +444,7 @@ RunStart ==
 \* parse.go:42-121: packages of the table, in the order GetPackages' map range produced
 Parse ==
   /\ pc = "parse"
-  /\ IF w.pkgfault = "parse-error"
+  /\ IF w.pkgfault = "parse-error" \/ tbl = {}              \* mockery.go:193-196: no packages specified in config
      THEN pc' = "die" /\ SkKeep /\ UNCHANGED pend
      ELSE /\ Sk([ev |-> "Parsed", n |-> 0])
           /\ pend' = {ById(q) : q \in tbl} /\ pc' = "selpkg"
@@ -484,7 +538,8 @@ Collect ==
         THEN pc' = "die" /\ SkKeep /\ UNCHANGED cnode
         ELSE /\ Sk([ev |-> "Collect", file |-> f, fabs |-> TRUE, fsegs |-> segs, pkg |-> P(cx.curp), iface |-> cx.curL,
                     struct |-> sl.res.struct, pkgname |-> sl.res.pkgname, tmpl |-> t])
-             /\ cnode' = IF f \in DOMAIN cnode THEN cnode ELSE Ext(cnode, f, [node |-> cx.curn, pid |-> cx.curp, segs |-> segs])
+             /\ cnode' = IF f \in DOMAIN cnode THEN [cnode EXCEPT ![f].nodes = Append(@, cx.curn)]
+                         ELSE Ext(cnode, f, [node |-> cx.curn, pid |-> cx.curp, segs |-> segs, nodes |-> <<cx.curn>>])
              /\ pc' = "entry"
   /\ UNCHANGED <<w, cc, mcfg, pend, cx, rs, fs, mk, out, xc, snap, anyfail>>
 
@@ -503,16 +558,20 @@ FileBegin(f) ==
   /\ UNCHANGED <<w, cc, mcfg, cx, cnode, fs, mk, out, xc, snap, anyfail>>
 
 FailFile == IF StopAtFailure THEN pc' = "die" /\ UNCHANGED anyfail ELSE pc' = "files" /\ anyfail' = TRUE
-CurTid == mcfg[cnode[fl.cur].node]["template"]
+CurCfg == mcfg[cnode[fl.cur].node]                           \* per-file parameters: the config of the file's first mock
+CurTid == CurCfg["template"]
+CurFault == FileFault(CurTid, CurCfg["require-template-schema-exists"], CurCfg["formatter"], mcfg[cnode[fl.cur].pid]["template-data"],
+                      {mcfg[cnode[fl.cur].nodes[j]]["template-data"] : j \in 1..Len(cnode[fl.cur].nodes)})
+CurHasSchema == CurTid \in Builtin \/ CurCfg["require-template-schema-exists"]
 NextStage == CHOOSE s \in StageSet : s \notin fl.oks /\ StageBefore(s) \subseteq fl.oks
                                       /\ (s = "exec" => "schema" \in fl.oks)
 \* template_generator.go:463-505 (Schema.tla checks validation per level and the remote-template cache)
 Stage ==
   /\ pc = "stage"
   /\ LET s == NextStage
-         ok == TemplFault(CurTid) # s
+         ok == CurFault # s
      IN /\ Sk([ev |-> "Stage", stage |-> s, ok |-> ok, tmpl |-> TemplStr(CurTid), schema |-> colls[fl.cur].schema,
-               hasschema |-> TRUE, validated |-> TRUE])
+               hasschema |-> CurHasSchema, validated |-> CurHasSchema])
         /\ IF ~ok THEN FailFile
            ELSE pc' = (IF s = "format" THEN "gen" ELSE "stage") /\ UNCHANGED anyfail
   /\ UNCHANGED <<w, cc, mcfg, pend, cx, rs, cnode, fs, mk, out, xc, snap>>
@@ -549,7 +608,7 @@ Stat ==
 \* mockery.go:372-375
 Write ==
   /\ pc = "write" /\ ~FpHere("write")
-  /\ Sk([ev |-> "Write", file |-> fl.cur, bytes |-> 1])
+  /\ Sk([ev |-> "Write", file |-> fl.cur, nfile |-> fl.cur, bytes |-> 1])
   /\ fs' = Ext(fs, fl.cur, [kind |-> "new", pkgname |-> colls[fl.cur].pkgname,
                              structs |-> {<<colls[fl.cur].mocks[j].iface, colls[fl.cur].mocks[j].struct>> : j \in 1..Len(colls[fl.cur].mocks)}])
   /\ pc' = "files"
@@ -663,7 +722,8 @@ NeverConflict == ~(Finished /\ IsRun /\ \E f \in cc.files : ~cc.uniform[f])
 NeverLoop == ~sl.reserr
 NeverMissing == fin.miss = {}
 \* cross-check of the restated effective-value function against ConfigTreeContract!EffScalar (cases cfgs)
-EffAgreesWithCT == \A n \in {"flag", "a", "k"} \cup DOMAIN cc.nodes : CNodeCfg(w, n) = CNodeCfgCT(w, n)
+EffAgreesWithCT == \A n \in {"flag"} \cup ConfiguredSet(w) \cup DOMAIN cc.nodes :
+                      \A p \in Params \ {"template-data"} : CNodeCfg(w, n)[p] = CNodeCfgCT(w, n)[p]
 
 -----------------------------------------------------------------------------
 (* Export: one CASE per world with the contract's expectation *)
